@@ -56,12 +56,30 @@ BGR233 = (8, 8, 0, 1, 7, 7, 3, 0, 3, 6)
 
 
 def server_format(sb):
-    # what harness/common/sess.h's vh_screen + rfbGetScreen produce (host is little-endian)
+    # what harness/common/sess.h's vh_screen + rfbGetScreen produce (host is little-endian); the run itself
+    # uses the harness's `fmtinfo` / `srvfmt` lines
     if sb == 4:
-        return (32, 24, 0, 1, 255, 255, 255, 0, 8, 16)
+        return (32, 32, 0, 1, 255, 255, 255, 0, 8, 16)
     if sb == 2:
-        return (16, 15, 0, 1, 31, 31, 31, 0, 5, 10)
+        return (16, 16, 0, 1, 31, 31, 31, 0, 5, 10)
     return (8, 8, 0, 1, 7, 7, 3, 0, 3, 6)
+
+
+def translate_independent(srv, fmt, raw):
+    """colour-scaling rule of the RFB world, independent of translate.c: every channel
+    out = (in * outMax + inMax/2) / inMax.  Used only in sessions with rfbNewFramebuffer, where the
+    harness's own call of cl->translateFn cannot be trusted to be the right function."""
+    sb_, out, cache = srv.bytespp, [], {}
+    for i in range(0, len(raw), sb_):
+        k = raw[i:i + sb_]
+        v = cache.get(k)
+        if v is None:
+            r, g, b = srv.comps(k)
+            v = fmt.of_comps((r * fmt.rmax + srv.rmax // 2) // srv.rmax, (g * fmt.gmax + srv.gmax // 2) // srv.gmax,
+                             (b * fmt.bmax + srv.bmax // 2) // srv.bmax)
+            cache[k] = v
+        out.append(v)
+    return b"".join(out)
 
 
 ENC = {"raw": 0, "rre": 2, "corre": 4, "hextile": 5, "zlib": 6, "tight": 7, "ultra": 9, "zrle": 16,
@@ -306,6 +324,62 @@ def tiny_scripts(rng):
     return out
 
 
+def newfb_scripts(rng):
+    """deterministic: rfbNewFramebuffer with another pixel format in mid-session, for a client that never sent
+    SetPixelFormat and for one whose SetPixelFormat equals the ServerInit format; afterwards one update in
+    every encoding.  The client keeps the OLD format: the server has to translate."""
+    out = []
+    W, H = 72, 40
+    encs = [("raw", ""), ("rre", ""), ("corre", ""), ("hextile", ""), ("zlib", " -251"), ("zrle", " -254"),
+            ("tight", " -255"), ("tight", " -256 %d" % LASTRECT), ("tightpng", " -253"), ("ultra", "")]
+    for old_sb, new_sb in ((4, 2), (4, 1), (2, 4), (2, 1), (1, 4), (1, 2)):
+        for explicit in (False, True):
+            lines = ["screen %d %d %d" % (W, H, old_sb), "client"]
+            if explicit:
+                lines.append("fmt " + " ".join(str(v) for v in server_format(old_sb)))
+            lines += ["enc 5", "paint tiles %d 0 0 %d %d 4 256" % (rng.randrange(1 << 30), W, H), "req 0 0 0 %d %d" % (W, H)]
+            lines.append("newfb %d" % new_sb)
+            for j, (e, extra) in enumerate(encs):
+                lines.append("enc %d%s" % (ENC[e], extra))
+                kind, n_, fl = [("tiles", 4, 256), ("photo", 1, 0), ("pal", 3, 0), ("runs", 6, 0)][j % 4]
+                lines.append("paint %s %d 0 0 %d %d %d %d" % (kind, rng.randrange(1 << 30), W, H, n_, fl))
+                x, y, w, h = [(0, 0, W, H), (8, 4, 56, 30)][j % 2]
+                lines.append("req 0 %d %d %d %d" % (x, y, w, h))
+            out.append(("\n".join(lines) + "\n", {"sb": old_sb, "W": W, "H": H, "enc": "raw", "fmt": "server", "big": False,
+                                                   "lossy": False, "boundary": True, "newfb": new_sb}))
+    return out
+
+
+def lastrect_count_scripts(rng):
+    """deterministic: Tight / TightPng with LastRect on rectangles of exactly MIN_SPLIT_RECT_SIZE = 4096 pixels
+    whose height is a power of two, holding a 16x16-aligned solid area >= 2048 pixels that is not the whole
+    rectangle: the encoder splits, so the update must be announced with 0xFFFF + LastRect (or the right count)."""
+    out = []
+    W, H = 300, 80
+    for encname in ("tight", "tightpng"):
+        for sb, fmtn in ((4, "server"), (4, "rgb888le"), (2, "server")):
+            lines = ["screen %d %d %d" % (W, H, sb), "client"]
+            if fmtn != "server":
+                lines.append("fmt " + " ".join(str(v) for v in FORMATS[fmtn]))
+            lines.append("enc %d %d %d" % (ENC[encname], -256 + 1, LASTRECT))
+            for (w, h) in ((64, 64), (128, 32), (256, 16), (32, 128 if H >= 128 else 64)):
+                if w * h != 4096:
+                    continue
+                x, y = 32, 16 if h <= 48 else 0
+                lines.append("paint noise %d 0 0 %d %d 1 0" % (rng.randrange(1 << 30), W, H))
+                # solid half (>= 2048 px, 16-aligned relative to the rectangle), not the whole rectangle
+                if w >= 128:
+                    lines.append("paint flat %d %d %d %d %d 1 0" % (rng.randrange(1 << 30), x, y, w // 2, h))
+                else:
+                    lines.append("paint flat %d %d %d %d %d 1 0" % (rng.randrange(1 << 30), x, y, w, h // 2))
+                lines.append("req 0 %d %d %d %d" % (x, y, w, h))
+                lines.append("paint flat %d %d %d %d %d 1 0" % (rng.randrange(1 << 30), x + w - (w // 2 if w >= 128 else w), y + (0 if w >= 128 else h // 2), w // 2 if w >= 128 else w, h if w >= 128 else h // 2))
+                lines.append("req 0 %d %d %d %d" % (x, y, w, h))
+            out.append(("\n".join(lines) + "\n", {"sb": sb, "W": W, "H": H, "enc": encname, "fmt": fmtn, "big": False,
+                                                   "lossy": False, "boundary": True}))
+    return out
+
+
 def jpeg_scripts(rng):
     """deterministic, every quality level 0..9: `flat16` content (16x16-aligned flat blocks, all different, the
     first ones pure red / green / blue / black / white) on 32-bpp screens with 8-8-8 client formats — the
@@ -536,7 +610,8 @@ def process(args):
         res["fails"].append(f)
 
     run_script = script
-    if any(l.startswith("enc ") and ("7" in l.split()[1:]) for l in sl):
+    has_newfb = any(l.startswith("newfb ") for l in sl)
+    if has_newfb or any(l.startswith("enc ") and ("7" in l.split()[1:]) for l in sl):
         # the Tight solid-area search looks at the server-format framebuffer: ask the harness for it too
         run_script = script.replace("\nclient\n", "\nclient\nsraw 1\n", 1)
     rc, out, err = run_proc(hexe, run_script)
@@ -562,6 +637,7 @@ def process(args):
     lean_lines, lean_expect = [], []
     intended, corre_max = 0, (48, 48)
     tight_lvl0, tight_jpeg, tight_last = False, False, False
+    after_newfb = False
     for opi, (op, info) in enumerate(ops):
         t = op.split()
         if t[0] == "enc":
@@ -585,6 +661,11 @@ def process(args):
                     res["stats"].setdefault("notes", {})
                     res["stats"]["notes"]["sessions whose format has depth>24 (ZRLE CPIXEL decoded by the de-facto rule)"] = \
                         res["stats"]["notes"].get("sessions whose format has depth>24 (ZRLE CPIXEL decoded by the de-facto rule)", 0) + 1
+        for l in info:
+            if l.startswith("srvfmt "):
+                srv_fmt = D.Fmt(*[int(v) for v in l.split()[1:11]])
+                sb = srv_fmt.bytespp
+                after_newfb = True
         if t[0] == "fmt":
             f = tuple(int(v) for v in t[1:11])
             fmt = D.Fmt(*(BGR233 if not f[3] else f))
@@ -601,7 +682,8 @@ def process(args):
         if "copyregion-nonempty" in info:
             fail("exact", "unexpected copy region", op)
         try:
-            msgs = D.parse_server_stream(buf, fmt, conn, codec.unlzo, codec.unjpeg, res["stats"])
+            msgs = D.parse_server_stream(buf, fmt, conn, codec.unlzo, codec.unjpeg, res["stats"],
+                                         one_update=(t[0] == "req"))
         except D.Malformed as e:
             fail("oracle", "server output is not decodable by the RFB rules: %s" % e, op,
                  impl=["out " + h[:2000]])
@@ -671,6 +753,17 @@ def process(args):
                 continue
             s = host[0]
             ref = sub_rect(s[4], s[0], s[1], s[2], s[3], r["x"], r["y"], r["w"], r["h"], fmt.bytespp)
+            if after_newfb and fmt.tc and srv_fmt.tc:
+                # after rfbNewFramebuffer the reference is computed independently of cl->translateFn from the
+                # server-format pixels: "converted to the pixel format the client asked for"
+                sr = [q for q in (l.split() for l in info if l.startswith("sraw ")) if (int(q[1]), int(q[2]), int(q[3]), int(q[4])) == s[:4]]
+                if sr:
+                    rawrect = sub_rect(bytes.fromhex(sr[0][5]), s[0], s[1], s[2], s[3], r["x"], r["y"], r["w"], r["h"], srv_fmt.bytespp)
+                    ind = translate_independent(srv_fmt, fmt, rawrect)
+                    if not same_pixels(fmt, ind, ref):
+                        fail("oracle", "after rfbNewFramebuffer the pixels handed to the encoders are not the framebuffer converted to the client's format (rectangle %d,%d %dx%d: snapshot via cl->translateFn differs from the colour-scaling rule)"
+                             % (r["x"], r["y"], r["w"], r["h"]), op)
+                    ref = ind
             name = D.ENC_NAMES.get(r["enc"], str(r["enc"]))
             if r["enc"] in (16, 17) and fmt.cpix() != fmt.cpix_defacto() and not res.get("cpixel_depth_reported"):
                 # the rectangle is decoded below with the rule all implementations use; by the letter of
@@ -935,6 +1028,10 @@ def run(ctx):
         for sc in stream_scripts(ctx.rng):
             cases.append(sc)
         for sc in jpeg_scripts(ctx.rng):
+            cases.append(sc)
+        for sc in newfb_scripts(ctx.rng):
+            cases.append(sc)
+        for sc in lastrect_count_scripts(ctx.rng):
             cases.append(sc)
         nlossy = 20 if ctx.tier == "quick" else 300
         for k in range(nlossy):
